@@ -3350,6 +3350,97 @@ static void print_lib_params(
 }
 
 /**********************************
+* Range checks on the application's configuration for the fields that
+* copy_api_from_app overrides or that verify_settings does not look at
+**********************************/
+static EbErrorType verify_api_ranges(const EbSvtAv1EncConfiguration *config) {
+    EbErrorType  return_error   = EB_ErrorNone;
+    unsigned int channel_number = config->channel_id;
+
+    if (config->enc_mode < 0) {
+        SVT_LOG("Error instance %u: EncoderMode must be in the range of [0-%d]\n", channel_number + 1, MAX_ENC_PRESET);
+        return_error = EB_ErrorBadParameter;
+    }
+    if (config->tier > 1) {
+        SVT_LOG("Error instance %u: Tier must be [0 - 1]\n", channel_number + 1);
+        return_error = EB_ErrorBadParameter;
+    }
+    if (config->is_16bit_pipeline > 1) {
+        SVT_LOG("Error instance %u: Encoder16BitPipeline must be [0 - 1]\n", channel_number + 1);
+        return_error = EB_ErrorBadParameter;
+    }
+    if (config->unpin > 1) {
+        SVT_LOG("Error instance %u: UnpinExecution must be [0 - 1]\n", channel_number + 1);
+        return_error = EB_ErrorBadParameter;
+    }
+    if (config->use_qp_file > 1) {
+        SVT_LOG("Error instance %u: UseQpFile must be [0 - 1]\n", channel_number + 1);
+        return_error = EB_ErrorBadParameter;
+    }
+    if (config->enable_tpl_la > 1) {
+        SVT_LOG("Error instance %u: EnableTPLModel must be [0 - 1]\n", channel_number + 1);
+        return_error = EB_ErrorBadParameter;
+    }
+    if (config->enable_overlays > 1) {
+        SVT_LOG("Error instance %u: EnableOverlays must be [0 - 1]\n", channel_number + 1);
+        return_error = EB_ErrorBadParameter;
+    }
+    if (config->film_grain_denoise_strength > 50) {
+        SVT_LOG("Error instance %u: FilmGrain must be [0 - 50]\n", channel_number + 1);
+        return_error = EB_ErrorBadParameter;
+    }
+    if (config->mrp_level > 9 || config->mrp_level < -1) {
+        SVT_LOG("Error instance %u: Invalid mrp level [0-9, -1 for auto], your input: %d\n", channel_number + 1, config->mrp_level);
+        return_error = EB_ErrorBadParameter;
+    }
+    if (config->tf_level > 3 || config->tf_level < -1) {
+        SVT_LOG("Error instance %u: Invalid tf level [0-3, -1 for auto], your input: %d\n", channel_number + 1, config->tf_level);
+        return_error = EB_ErrorBadParameter;
+    }
+    if (config->rate_control_mode == 1) {
+        if (config->vbr_bias_pct > 100) {
+            SVT_LOG("Error instance %u: VBRBiasPct must be [0 - 100]\n", channel_number + 1);
+            return_error = EB_ErrorBadParameter;
+        }
+        if (config->under_shoot_pct > 100) {
+            SVT_LOG("Error instance %u: UnderShootPct must be [0 - 100]\n", channel_number + 1);
+            return_error = EB_ErrorBadParameter;
+        }
+        if (config->over_shoot_pct > 1000) {
+            SVT_LOG("Error instance %u: OverShootPct must be [0 - 1000]\n", channel_number + 1);
+            return_error = EB_ErrorBadParameter;
+        }
+        if (config->recode_loop > 3) {
+            SVT_LOG("Error instance %u: RecodeLoop must be [0 - 3]\n", channel_number + 1);
+            return_error = EB_ErrorBadParameter;
+        }
+    }
+#if FTR_ENABLE_FIXED_QINDEX_OFFSETS
+    if (config->use_fixed_qindex_offsets > 1) {
+        SVT_LOG("Error instance %u: UseFixedQIndexOffsets must be [0 - 1]\n", channel_number + 1);
+        return_error = EB_ErrorBadParameter;
+    }
+    if (config->use_fixed_qindex_offsets == 1) {
+        EbBool in_range = config->key_frame_qindex_offset >= -256 && config->key_frame_qindex_offset <= 255 &&
+            config->key_frame_chroma_qindex_offset >= -256 && config->key_frame_chroma_qindex_offset <= 255;
+        for (int32_t i = 0; i < EB_MAX_TEMPORAL_LAYERS; i++)
+            if (config->qindex_offsets[i] < -256 || config->qindex_offsets[i] > 255 ||
+                config->chroma_qindex_offsets[i] < -256 || config->chroma_qindex_offsets[i] > 255)
+                in_range = EB_FALSE;
+        if (!in_range) {
+            SVT_LOG("Error instance %u: qindex offsets must be [-256 - 255]\n", channel_number + 1);
+            return_error = EB_ErrorBadParameter;
+        }
+    }
+#endif
+    if ((config->frame_rate_numerator == 0) != (config->frame_rate_denominator == 0)) {
+        SVT_LOG("Error instance %u: FrameRateNumerator and FrameRateDenominator must be both zero or both non-zero\n", channel_number + 1);
+        return_error = EB_ErrorBadParameter;
+    }
+    return return_error;
+}
+
+/**********************************
 
 * Set Parameter
 **********************************/
@@ -3378,6 +3469,8 @@ EB_API EbErrorType svt_av1_enc_set_parameter(
 
     EbErrorType return_error = (EbErrorType)verify_settings(
         enc_handle->scs_instance_array[instance_index]->scs_ptr);
+    if (verify_api_ranges(config_struct) == EB_ErrorBadParameter)
+        return_error = EB_ErrorBadParameter;
 
     if (return_error == EB_ErrorBadParameter) {
         // Release Config Mutex
